@@ -500,9 +500,7 @@ class Frag:
         r = self.rng
         dict_uses = r.chance(2, 3)
         U = T if (first_order(T) and T[0] != "dyn" and r.chance(1, 2)) else self.gen_type(1, False)
-        # (two projections of an unannotated parameter followed by a coercion to a dictionary make the real
-        # typechecker panic -- debug assertion in UnifTable::assign_rrows --: mostly one field then)
-        nf = (1 if r.chance(7, 8) else 2) if dict_uses else r.range(1, 3)
+        nf = r.range(1, 3)
         fs = sorted(r.shuffle(FIELDS)[:nf])
         if dict_uses:
             R = ("rec", tuple((f, U) for f in fs))
@@ -514,13 +512,11 @@ class Frag:
             # valid order: every field is projected (once) before the first coercion -- the coercion closes the
             # row with the fields known so far; the near-miss orders come from the mutant stream
             kinds = [("proj", f) for f in r.shuffle(fs)] if (nf > 1 or r.chance(3, 4)) else []
-            if kinds and r.chance(7, 8):
-                # (a second coercion of a record whose row tail has been assigned panics as well)
-                kinds += [("vals", None)]
-            else:
-                kinds += [(kd, None) for kd in r.shuffle(["vals", r.choice(["has", "get", "fields", "vals"])])[:r.range(1, 2)]]
-                if not any(kd == "vals" for kd, _ in kinds):
-                    kinds.append(("vals", None))
+            if kinds and r.chance(1, 3):
+                kinds.append(("proj", r.choice(fs)))          # a field projected twice
+            kinds += [(kd, None) for kd in r.shuffle(["vals", r.choice(["has", "get", "fields", "vals"])])[:r.range(1, 2)]]
+            if not any(kd == "vals" for kd, _ in kinds):
+                kinds.append(("vals", None))
         else:
             kinds = [("proj", r.choice(fs)) for _ in range(r.range(1, 3))]
         binds = []          # (name, type, term)
